@@ -172,3 +172,19 @@ func fieldOfField(f *ssa.Field) *types.Var {
 }
 
 func fmtf(format string, a ...any) string { return fmt.Sprintf(format, a...) }
+
+func constantInt(o *types.Const) (int64, bool) {
+	v := o.Val()
+	if v == nil {
+		return 0, false
+	}
+	s := v.ExactString()
+	var n int64
+	for _, ch := range s {
+		if ch < '0' || ch > '9' {
+			return 0, false
+		}
+		n = n*10 + int64(ch-'0')
+	}
+	return n, true
+}
